@@ -46,7 +46,7 @@ def _lock(kinds, prop):
 
 
 PROPERTIES = {
-    'C16': dict(units=ENGINES_SCORES + ['interference'] + WRAPPERS, extra=[_lock(['cell'], 'C16')],
+    'C16': dict(units=ENGINES_SCORES + ['interference', 'registry', 'stats_registry'] + WRAPPERS, extra=[_lock(['cell'], 'C16')],
                 explanation='panic freedom of every extracted engine function (overflow, indexing, unwrap, callee preconditions such as rand_below(n > 0)) proved by Verus, '
                             'the wrapper tails and invalidation callbacks the macros emit for the fixture corpus (unwrap, indexing, callee preconditions), plus RefCell guard-liveness obligations on the original thread_local_cache.rs (no borrow_mut while a borrow of the same cell is live); unit interference: the global lookup/store paths and the async lookup/insert path stay panic-free and terminate even when every lock acquisition / DashMap operation sees arbitrarily changed data (concurrent interference)',
                 assumptions=['limit >= 1 where the async engine requires it; counters unsaturated; totals fit usize', 'user closures / estimators / Debug impls do not panic']),
@@ -70,7 +70,7 @@ PROPERTIES = {
     'C03': dict(units=ENGINES + WRAPPERS + ['monotone', 'wrappers_async_await', 'wrappers_global_await'], explanation='engine contracts (a lookup never removes an unexpired entry; an unbounded store keeps everything) and wrapper contracts on the real macro expansions: a hit is served without running the body, a miss runs it exactly once and stores the result (effect log). Concurrent sentence (global and async engines, configuration without limit / ttl / max_memory): unit monotone proves on the real get / insert code, under the interference projection, that every store critical section leaves every resident key resident (rely/guarantee: ghost key set threaded through the acquisitions), that a lookup returning None did not see the key at its read section, and that the key is resident when insert returns; units wrappers_async_await / wrappers_global_await: with arbitrary interference while the body runs (no lock held) the body runs at most once per call, a hit is served without it, and the call then stores its own result under its own key',
                 assumptions=['concurrent sentence: the identification of a real execution with a trace of released store states, each produced by one critical section of a verified operation, is informal; the trace lemma (resident once => resident forever) is proved', 'fixture bodies are deterministic functions of their arguments']),
     'C09': dict(units=ENGINES + WRAPPERS, explanation='insert_result* leave the cache untouched for Err and store Ok; wrapper contracts on the expansions of Result / std::result::Result fixtures (sync and async, with and without max_memory): Err is never stored, Ok is'),
-    'C10': dict(units=WRAPPERS, explanation='wrapper contracts on the expansions of cache_if fixtures: the predicate is consulted exactly once per body run with that key (effect log) and its verdict on (key, result) decides the store; sync Result: only Ok',
+    'C10': dict(units=ENGINES + WRAPPERS, explanation='engine contracts the wrappers rest on (representation invariant preserved by every operation, last store wins) and wrapper contracts on the expansions of cache_if fixtures: the predicate is consulted exactly once per body run with that key (effect log) and its verdict on (key, result) decides the store; sync Result: only Ok',
                 assumptions=['predicates are pure functions of (key, value)']),
     'C11': dict(units=ENGINES + WRAPPERS, explanation='wrapper contracts on the expansions of invalidate_on fixtures: a stale hit is never returned, the body reruns and the fresh result replaces the entry (last store wins in all three engines); a valid hit is served without the body',
                 assumptions=['the check is a pure function of (key, value) during one call']),
